@@ -2,3 +2,5 @@ import CanopenModel.Bytes
 import CanopenModel.Codec
 import CanopenModel.Spec.Cia301Types
 import CanopenModel.Driver.C04
+import CanopenModel.Pdo.Bits
+import CanopenModel.Driver.C05
